@@ -75,6 +75,11 @@ CHECKS = {
    note=NOTE + " C20: Backtrace.v instruments the hand-transcribed VM model (tie by correspondence); the rule table is regenerated; positions of multi-line expressions: any line of the call expression is accepted against the expectation, the two optimizer modes must agree exactly. One open known finding (failure inside a callback run by a native).",
    technique="Coq proof (backtrace invariant by induction on fuel over the VM model; position theorems by reflection on the go2v-regenerated rule table) + correspondence + differential optimizer on/off",
    ref="DESIGN.md section 5 C20"),
+ "C06": dict(
+   text="Theorems on a skeleton language (Emit, If with init/else chains, For with all 8 header shapes, Range, tagged and tagless Switch with multi-value cases and default in any position, Break, Continue, Return) with Go's big-step semantics (GoSpec/GoCtl.v, oracle answers any function of the whole history) and a transcription of the compiler's placeholder-and-rewrite code generation + the jump instructions of do.go (Model/Ctl.v): c06_skeleton (for every block, nesting depth, oracle and fuel: the compiled code produces exactly Go's trace and ends with an empty operand stack, or executes RETURN), c06_statement (break/continue reach exactly the rewritten targets), c06_rewrite, c06_wf_no_placeholder, c06_no_fallthrough(_tagged), c06_default_position. Correspondence: compile_ctl vs the real compiler instruction for instruction, abstract machine vs real VM traces, GoCtl vs the Go toolchain; exhaustive enumeration of all skeletons up to 2 (quick) / 3 (thorough) control nodes; system level with the optimizer on.",
+   note=NOTE + " C06: Ctl.v is a hand transcription of the control-flow cases of compiler.go and do.go (tie by instruction-for-instruction correspondence); user calls are atomic in the abstract machine (C09); theorems are for unoptimized code (optimized path: C02 + the differential).",
+   technique="Coq proof of compiler correctness for the control-flow skeleton (simulation by induction on Go's big-step derivation) + exhaustive small-scope correspondence + differential against go build",
+   ref="DESIGN.md section 5 C06"),
  "C01": dict(
    text="C01 is claimed as the composition of the facet properties (each with its own theorems) plus a whole-program differential against the Go toolchain; the end-to-end part that is closed as a theorem is c01_expr_partial / c01_expr_eval: for every token list, variable assignment and operand value, goatlang's parse (generated table), opcode choice (generated infixMap) and operator implementations (generated from value.go) give Go's grouping and Go's int32 value. Correspondence: expression model vs implementation and vs real Go; model VM vs real VM on real compiled code; system level: generated programs of four profiles incl. multi-package layouts vs `go build`.",
    note=NOTE + " C01: no formal semantics of Go is available offline, so there is no single end-to-end theorem over whole programs (named _partial); statements, calls, containers, strings, printing, scoping and packages are decided by C02-C20; 'as the Go toolchain' in the differential means go1.23 on the same source with int := int32; fmt.Print/Sprint with several operands are outside (property statement).",
